@@ -57,6 +57,7 @@ static struct {
 	int choice[VS_MAXCHOICE], nalt[VS_MAXCHOICE], cost[VS_MAXCHOICE];
 	int npoints, prefix_len, dev_used, bound;
 	int abandon;			/* 0 running, 1 pruned, 2 failed, 3 horizon */
+	int spurious_used;		/* spurious weak-CAS failures injected in this execution (at most opt->spurious_cas) */
 	vx_set seen;			/* visited states (remaining budget folded into the key when bounded) */
 	jmp_buf *escape;		/* failures raised while in the scheduler context (init, at_end) */
 	int in_sched;
@@ -222,7 +223,7 @@ static void vs_hash_clocks(vx_hasher *h)
 static vx_h128 vs_state_hash(int kind)
 {
 	vx_hasher h; vx_h_init(&h);
-	vx_h_u64(&h, (uint64_t)kind | (uint64_t)(V.cur + 1) << 8 | (uint64_t)V.next_handler << 16 | (uint64_t)V.depth0 << 24);
+	vx_h_u64(&h, (uint64_t)kind | (uint64_t)(V.cur + 1) << 8 | (uint64_t)V.next_handler << 16 | (uint64_t)V.depth0 << 24 | (uint64_t)V.spurious_used << 32);
 	for (int r = 0; r < V.nreg; r++) vx_h_bytes(&h, V.reg[r].p, V.reg[r].n);
 	for (int t = 0; t < V.scn->nthreads; t++) {
 		vx_h_u64(&h, (uint64_t)V.finished[t] | (uint64_t)V.started[t] << 1 | (uint64_t)vs_still_blocked(t) << 2);
@@ -406,7 +407,7 @@ static void vs_run_one(void)
 {
 	const vs_scenario *s = V.scn;
 	jmp_buf escape;
-	V.npoints = 0; V.dev_used = 0; V.abandon = 0; V.steps = 0; V.cur = -1;
+	V.npoints = 0; V.dev_used = 0; V.abandon = 0; V.steps = 0; V.cur = -1; V.spurious_used = 0;
 	V.nloc = 0; V.write_epoch = 1; V.next_handler = 0; V.depth0 = 0; V.stack0[0] = 0;
 	memset(V.ctx, 0, sizeof(V.ctx)); memset(V.finished, 0, sizeof(V.finished)); memset(V.started, 0, sizeof(V.started)); memset(V.blocked, 0, sizeof(V.blocked));
 	vs_regions_clear();
@@ -634,7 +635,8 @@ static int vs_cas##N(volatile T *a, T *e, T v, int mo, int fmo, int weak, void *
 	vs_sched_point(site); \
 	T cur = __atomic_load_n(a, __ATOMIC_SEQ_CST); \
 	int ok = (cur == *e); \
-	if (ok && weak && V.running && !V.in_setup && V.opt->spurious_cas && vs_choose(2, 1, 3)) { \
+	if (ok && weak && V.running && !V.in_setup && V.spurious_used < V.opt->spurious_cas && vs_choose(2, 1, 3)) { \
+		V.spurious_used++; \
 		if (V.running) { vs_hb((void *)a, 0, fmo, sizeof(T)); vs_note_op("cas_weak(spurious failure)", (void *)a, fmo, (uint64_t)cur, 0, sizeof(T)); vs_progress(vs_curctx()); } \
 		return 0; } \
 	if (V.running) vs_hb((void *)a, ok ? 2 : 0, ok ? mo : fmo, sizeof(T)); \
